@@ -336,6 +336,15 @@ def r_cols_writer(ctx):
         me = V("param:self")
         ents = ("f", me, "entries")
         arms = set()
+        # no success path bypasses the codec: even an empty directory is a compressed stream holding the count varint
+        for p in [q for q in fa.paths if q.exit in ("ok", "tail")]:
+            wr0 = [e for e in p.events if e.kind == "call" and e.d["fn"] in VWRITE]
+            okc = bool(wr0) and not wr0[0].loops and any(is_call_to(t, lambda s: s in factories) for t in subterms(unmut(wr0[0].d["args"][0])))
+            if not okc:
+                ex = [e for e in p.events if e.kind == "exit"]
+                obs.append(Ob("R-COLS", fn, "encode: every success path writes the entry count through the compressor", False,
+                              "a success path writes no count varint" if not wr0 else "count not written through a codec handle", ex[-1].loc() if ex else rel(f["loc"])))
+        obs.append(Ob("R-COLS", fn, "encode: every success path writes the entry count through the compressor", True, "%d success paths" % len([q for q in fa.paths if q.exit in ("ok", "tail")]), rel(f["loc"])))
         for p in paths:
             wr = [e for e in p.events if e.kind == "call" and e.d["fn"] in VWRITE]
             if len(wr) != 5:
@@ -507,3 +516,82 @@ def _offrule_facts_flipped(d, idx, ent):
     else:
         return None
     return _offrule_facts(o, idx, ent)
+
+
+def r_codec_always(ctx):
+    """R-CODEC-ALWAYS: no successful open bypasses the directory decoder and no successful archive write bypasses the directory encoder.  The rejection
+    of `Compression::Unknown` (and of an absent root directory) lives inside the codec factories; so every success path of the directory
+    decoder/encoder must build the (de)compressor, and every success path of every function between the opener/archive writer and the codec must
+    pass through a function that always does (must-pass-through over the call graph)."""
+    obs = []
+    fns = {f["path"]: f for f in ctx.user_fns()}
+    direct = {p: set(c["fn"] for c in calls(f["body"])) for p, f in fns.items()}
+
+    def ok_paths(f):
+        return [q for q in ctx.fa(f).paths if q.exit in ("ok", "tail")]
+
+    def bypass(f, through):
+        """success paths of f without a call into `through`"""
+        return [q for q in ok_paths(f) if not any(e.kind == "call" and e.d["fn"] in through for e in q.events)]
+
+    for what, codecs, tops, word in (("decode", dir_decoders(ctx), ctx.openers(), "Read"), ("encode", dir_encoders(ctx), ctx.archive_writers(), "Write")):
+        if not codecs:
+            obs += no_anchor("R-CODEC-ALWAYS", "directory %sr" % what)
+            continue
+        if not tops:
+            obs += no_anchor("R-CODEC-ALWAYS", "archive opener" if what == "decode" else "archive writer")
+            continue
+        factories = set(f["path"] for f in ctx.codec_factories() if word in f["ret"])
+        always = set()
+        for f in codecs:
+            b = bypass(f, factories)
+            ok = bool(ok_paths(f)) and not b
+            ex = [e for e in b[0].events if e.kind == "exit"] if b else []
+            obs.append(Ob("R-CODEC-ALWAYS", f["path"], "%sr: every success path builds the %scompressor" % (what, "de" if what == "decode" else ""), ok,
+                          ("a success path returns %s without building it" % tstr(unmut(b[0].value))[:80]) if b else "%d success paths" % len(ok_paths(f)),
+                          ex[-1].loc() if ex else rel(f["loc"])))
+            if ok:
+                always.add(f["path"])
+        # which functions can reach the codec at all
+        reach = set(d["path"] for d in codecs)
+        changed = True
+        while changed:
+            changed = False
+            for p, cs in direct.items():
+                if p not in reach and cs & reach:
+                    reach.add(p)
+                    changed = True
+        changed = True
+        while changed:
+            changed = False
+            for p in sorted(reach - always):
+                try:
+                    if ok_paths(fns[p]) and not bypass(fns[p], always):
+                        always.add(p)
+                        changed = True
+                except PathExplosion:
+                    pass
+        for o in tops:
+            ok = o["path"] in always
+            why = "every success path passes through the directory %sr" % what
+            loc = rel(o["loc"])
+            if not ok:
+                # name the function(s) on the way whose success path skips the codec
+                culprits = []
+                seen, work = set(), [o["path"]]
+                while work:
+                    q = work.pop()
+                    if q in seen or q not in fns:
+                        continue
+                    seen.add(q)
+                    if q in reach and q not in always:
+                        b = bypass(fns[q], always | (reach - {q}))
+                        if b:
+                            ex = [e for e in b[0].events if e.kind == "exit"]
+                            culprits.append((q, ex[-1].loc() if ex else rel(fns[q]["loc"])))
+                        work.extend(direct[q] & reach)
+                why = "success path(s) that never %s a directory: %s" % (what, "; ".join("%s (%s)" % c for c in culprits) or "?")
+                if culprits:
+                    loc = culprits[0][1]
+            obs.append(Ob("R-CODEC-ALWAYS", o["path"], "%s: every success path %ss the root directory" % ("open" if what == "decode" else "write", what), ok, why, loc))
+    return obs
